@@ -254,6 +254,24 @@ def run_static(res, p, base):
                                                   {"job": "static", "files": p["files"]}], base)
     judge_names(res, names)
     judge_static(res, sp, static)
+    # the advertised surface also exists (star import works) when the optional dependency jinja2 is not
+    # installed - numpy and ROOT are absent on this machine anyway
+    cfg = dict(only(sp), without=["jinja2"])
+    try:
+        (names2,) = run_child(cfg, [{"job": "names", "subpackage": sp}], base)
+    except RuntimeError as e:
+        res.case(nontrivial=True, outcome=("no-jinja2", sp, "import failed"))
+        res.violation({"part": "a", "sp": sp, "law": "import-without-optional-dependency", "without": "jinja2"},
+                      str(e)[-400:], "import lena.%s succeeds without jinja2" % sp,
+                      {"law": "import-without-optional-dependency", "subpackage": sp, "without": "jinja2"})
+    else:
+        res.count("a_configurations_without_jinja2")
+        before = len(res.viol)
+        judge_names(res, names2)
+        if len(res.viol) != before:
+            for ck in list(res.viol)[before:]:
+                res.viol[ck][1]["cause"]["without"] = "jinja2"
+                res.viol[ck][1]["case"]["without"] = ["jinja2"]
     driven = set(drivers.elements_of(sp))
     res.count("b_public_names", len(public))
     res.count("b_public_names_without_canned_driver", len([n for n in public if n not in driven]))
@@ -420,7 +438,16 @@ def replay(case):
         part = case.get("part")
         sp = case["sp"]
         if part == "a":
-            names = run_child(only(sp), [{"job": "names", "subpackage": sp}], base)[0]
+            cfg = only(sp)
+            if case.get("without"):
+                cfg = dict(cfg, without=list(case["without"]))
+            try:
+                names = run_child(cfg, [{"job": "names", "subpackage": sp}], base)[0]
+            except RuntimeError as e:
+                if case.get("law") == "import-without-optional-dependency":
+                    return [{"case": case, "cause": {"law": case["law"]}, "observed": str(e)[-400:],
+                             "expected": "import succeeds"}]
+                raise
             judge_names(res, names)
             out = [v for v in result_violations(res)
                    if v["case"].get("law") == case.get("law") and v["case"].get("name") == case.get("name")]
